@@ -1771,7 +1771,54 @@ class Interp:
             return [('maybe', st)]
         if k == 'PGuard':
             return [('maybe' if kind == 'yes' else kind, s) for kind, s in self.match(p['pat'], v, st)]
+        if k == 'PSlice':
+            return self.match_slice(p, v, st)
         return [('maybe', st)]
+
+    # ------------------------------------------------------------------ slice patterns
+    # `[p0, .., pk]` matches a sequence of exactly k+1 elements, element i against p_i; `[p0, .., pk, mid @ .., q0, .., qm]` matches a
+    # sequence of at least k+m+2 elements: the first k+1 against the p_i, the last m+1 against the q_j, `mid` is bound to what lies
+    # between (Rust reference, slice patterns).  Nothing else is tested: a length mismatch is "no match", never a panic.
+    def slice_elem(self, v, i, from_end=False):
+        """Element i of the sequence value v counted from its front (from its back: i = 0 is the last) - v is known to have it."""
+        if self.domain is not None and hasattr(self.domain, 'elem'):
+            r = self.domain.elem(v, i, from_end)
+            if r is not None:
+                return r
+        if v[0] == 'subslice' and not from_end:
+            return self.slice_elem(v[1], v[2] + i)
+        if v[0] == 'subslice':
+            return self.slice_elem(v[1], v[3] + i, True)
+        return ('index', v, ('lit', i)) if not from_end else ('index', v, bin_term('Sub', seq_len_term(v), ('lit', i + 1)))
+
+    def match_slice(self, p, v, st):
+        before, mid, after = p.get('before') or [], p.get('mid'), p.get('after') or []
+        nb, na = len(before), len(after)
+        es = seq_elems(v, self.exact_seqs)
+        if es is not None:
+            # every element is known (literal octets, an array expression): the length decides, the elements are bound by position
+            elems, mk = es
+            n = len(elems)
+            if (mid is None and n != nb + na) or n < nb + na:
+                return [('no', st)]
+            pats, vals = list(before), list(elems[:nb])
+            if mid is not None:
+                pats.append(mid); vals.append(mk(elems[nb:n - na]))
+            pats += list(after); vals += list(elems[n - na:])
+            return self.match_seq(pats, vals, st)
+        need = nb + na
+        L = seq_len_term(v)
+        atom = ('bin', 'Ge', L, ('lit', need)) if mid is not None else ('bin', 'Eq', L, ('lit', need))
+        kn = True if (mid is not None and need == 0) else length_decides(st.pc, v, atom)
+        if kn is False:
+            return [('no', st)]
+        s = st if kn else st.assume(atom, True)
+        pats = list(before) + ([mid] if mid is not None else []) + list(after)
+        vals = [self.slice_elem(v, i) for i in range(nb)] + ([subslice_term(v, nb, na)] if mid is not None else []) + [self.slice_elem(v, na - 1 - j, True) for j in range(na)]
+        r = self.match_seq(pats, vals, s)
+        if kn:
+            return r
+        return [('maybe' if kind == 'yes' else kind, s2) if kind != 'no' else (kind, st) for kind, s2 in r]
 
     def adt_is_enum(self, p):
         d = p.get('def', '')
@@ -1823,6 +1870,94 @@ def range_bounds(p):
     if vals[1] is not None and 'Included' not in (p.get('end') or ''):
         vals[1] -= 1
     return tuple(vals)
+
+SLICE_LEN = 'core::slice::<impl [T]>::len'
+
+def seq_len_term(v):
+    """the number of elements of the sequence value v, as the term `v.len()` evaluates to (a pure observer: no site)"""
+    if v[0] == 'subslice':
+        return bin_term('Sub', seq_len_term(v[1]), ('lit', v[2] + v[3])) if v[2] + v[3] else seq_len_term(v[1])
+    return ('call', SLICE_LEN, (v,), None)
+
+def subslice_term(v, lo, back):
+    """v without its first `lo` and its last `back` elements - v is known to have that many"""
+    if lo == 0 and back == 0:
+        return v
+    if v[0] == 'subslice':
+        return ('subslice', v[1], v[2] + lo, v[3] + back)
+    return ('subslice', v, lo, back)
+
+def seq_elems(v, exact_vecs=False):
+    """(elements, constructor of a sequence value of the same kind from a list of elements) of a sequence value all of whose elements
+    are listed - literal octets, an array expression, with `exact_vecs` a vector whose elements are all known -, else None"""
+    if v[0] == 'lit' and isinstance(v[1], bytes):
+        return [('lit', x) for x in v[1]], (lambda es: ('lit', bytes(x[1] for x in es)))
+    if v[0] == 'array':
+        return list(v[1]), (lambda es: ('array', tuple(es)))
+    if exact_vecs and v[0] == 'vec' and ground(v):
+        return list(v[1]), (lambda es: ('array', tuple(es)))
+    return None
+
+def length_facts(pc, v):
+    """What a path condition says about the number n of elements of the sequence value v: (lo, hi, excluded) with lo <= n <= hi
+    (hi None: unbounded) and n not in excluded; None when the facts contradict each other.  Read: comparisons of `len(v)` /
+    `input_len(v)` with an integer literal, and `is_empty(v)`."""
+    lo, hi, excl = 0, None, set()
+    def is_len(t):
+        return t[0] == 'call' and t[1].rsplit('::', 1)[-1] in ('len', 'input_len') and len(t[2]) == 1 and t[2][0] == v
+    def le(k):
+        nonlocal hi
+        hi = k if hi is None else min(hi, k)
+    def ge(k):
+        nonlocal lo
+        lo = max(lo, k)
+    for a, t in pc:
+        while a[0] == 'not':
+            a, t = a[1], not t
+        if a[0] == 'call' and a[1].rsplit('::', 1)[-1] == 'is_empty' and len(a[2]) == 1 and a[2][0] == v:
+            a = ('bin', 'Eq', seq_len_term(v), ('lit', 0))
+        if a[0] != 'bin' or len(a) != 4 or a[1] not in ('Eq', 'Ne', 'Lt', 'Le', 'Gt', 'Ge'):
+            continue
+        op, x, y = a[1], a[2], a[3]
+        if is_len(y) and x[0] == 'lit':
+            x, y, op = y, x, {'Lt': 'Gt', 'Gt': 'Lt', 'Le': 'Ge', 'Ge': 'Le'}.get(op, op)
+        if not (is_len(x) and y[0] == 'lit' and isinstance(y[1], int) and not isinstance(y[1], bool)):
+            continue
+        k = y[1]
+        if not t:
+            op = {'Eq': 'Ne', 'Ne': 'Eq', 'Lt': 'Ge', 'Ge': 'Lt', 'Le': 'Gt', 'Gt': 'Le'}[op]
+        if op == 'Eq':
+            ge(k); le(k)
+        elif op == 'Ne':
+            excl.add(k)
+        elif op == 'Lt':
+            le(k - 1)
+        elif op == 'Le':
+            le(k)
+        elif op == 'Gt':
+            ge(k + 1)
+        else:
+            ge(k)
+    while lo in excl:
+        lo += 1
+    while hi is not None and hi in excl and hi >= lo:
+        hi -= 1
+    if hi is not None and hi < lo:
+        return None
+    return lo, hi, excl
+
+def length_decides(pc, v, atom):
+    """True / False when the path condition's facts about the length of v decide `len(v) == k` / `len(v) >= k`, else None"""
+    fl = length_facts(pc, v)
+    if fl is None:
+        return None          # (a contradictory path: nothing is decided here; whoever enumerates it finds it dead)
+    lo, hi, excl = fl
+    k = atom[3][1]
+    if atom[1] == 'Ge':
+        return True if lo >= k else False if (hi is not None and hi < k) else None
+    if k < lo or (hi is not None and k > hi) or k in excl:
+        return False
+    return True if hi == lo == k else None
 
 def tuple_elem(v, i):
     if v[0] == 'tuple' and i < len(v[1]):
